@@ -34,8 +34,10 @@ def compositions(n):
     return out
 
 
-def run_history(uni, hist, sizes, dbpath, stats, bad):
-    """returns nothing; appends violations"""
+def run_history(uni, hist, sizes, dbpath, stats, bad, discard_first=False):
+    """returns nothing; appends violations.  discard_first: the first batch is handed to the store, the buffer is then
+    discarded the way the node does after a rejected download (DefaultBlockStore.instance.write_buffer.clear()), and the
+    same blocks are handed in again before the flush"""
     from skepticoin import blockstore
     from skepticoin.scripts import utils as su
     if os.path.exists(dbpath):
@@ -51,6 +53,11 @@ def run_history(uni, hist, sizes, dbpath, stats, bad):
         batch = [uni.get(p) for p in hist[pos:pos + bs]]
         pos += bs
         try:
+            if discard_first and pos == bs:
+                for n in batch:
+                    st.add_block_to_buffer(n.block)
+                st.write_buffer.clear()
+                stats['discards'] = stats.get('discards', 0) + 1
             for n in batch:
                 st.add_block_to_buffer(n.block)
             st.flush_blocks_to_disk()
@@ -199,6 +206,14 @@ def _worker(arg):
         for sizes in compositions(len(hist)):
             stats['runs'] += 1
             run_history(uni, hist, sizes, dbpath, stats, bad)
+            if len(sizes) <= 2:
+                # the same writes after a discarded first hand-over of the first batch
+                stats['runs'] += 1
+                nb = len(bad)
+                run_history(uni, hist, sizes, dbpath, stats, bad, discard_first=True)
+                for i in range(nb, len(bad)):
+                    if bad[i][0] != 'shared-transaction-across-stored-blocks':
+                        bad[i] = (bad[i][0], bad[i][1] + ' [first batch handed over, discarded, handed over again]', bad[i][2], ['discard'] + list(bad[i][3]))
         if len(bad) > 200:
             break
     if os.path.exists(dbpath):
@@ -246,7 +261,7 @@ def run(ctx):
         'exhaustive': True, 'thread_schedules': thr,
         'rule': "histories = BFS over block trees (payload menu with forks including the same transaction / spending the same "
                 "output differently / multi-input multi-output), %d blocks beyond a 2-block prefix; each history under every "
-                "composition into flush batches; after every flush a restart and comparison of every block (bytes, order) and "
+                "composition into flush batches (those with <= 2 batches also with the first batch handed over, discarded as after a rejected download, and handed over again); after every flush a restart and comparison of every block (bytes, order) and "
                 "of the rebuilt ledger state; plus a 201-block chain carrying reward data of every length 0..200" % depth,
     })
     ctx.assumptions.append("fidelity of acknowledged flushes with a clean shutdown; crash consistency of SQLite (journal_mode="
@@ -277,7 +292,8 @@ def replay(data, ctx):
     stats = {'flushes': 0, 'reloads': 0, 'blocks_compared': 0, 'state_checks': 0, 'state_checks_skipped': 0, 'runs': 0}
     bad = []
     dbpath = os.path.join(os.getcwd(), 'c08-replay.db')
-    run_history(uni, hist, data['sizes'], dbpath, stats, bad)
+    sz = list(data['sizes'])
+    run_history(uni, hist, [x for x in sz if x != 'discard'], dbpath, stats, bad, discard_first='discard' in sz)
     if os.path.exists(dbpath):
         os.remove(dbpath)
     return [(k, w) for k, w, _, _ in bad]
